@@ -100,22 +100,24 @@ LEAK_ALL = leak("LK", (), 60, all_fns=True)
 LEAK_SCOPED = leak("R3", ("ACQ-SCOPED",), 30)
 
 prop("C01",
-     [cg.rule_L1, st.rule_L2, st.rule_L4, sig.rule_O1, st.rule_N5, ts.rule_SD, ts2.rule_K1, cg.rule_K2, ts2.rule_R5, ts2.rule_R3key, ts2.rule_R1,
+     [cg.rule_L1, st.rule_L2, st.rule_L4, st.rule_E1, sig.rule_O1, st.rule_N5, ts.rule_SD, ts2.rule_K1, cg.rule_K2, ts2.rule_R5, ts2.rule_R3key, ts2.rule_R1,
       A("rule_Y1"), A("rule_Y2")],
      "Premises of the Havender/Coffman argument, each a necessary condition visible in the code: L1 every safe function that can "
      "reach a blocking raw acquisition takes the key by value (call graph); L2 sorting collections cache get_ptrs(data) sorted "
      "ascending by lock address and block in that order; L4 the owned collection is one indivisible unit with one fixed inner "
-     "enumeration; O1 no shared access to its members; SD no re-acquisition of a held receiver inside a call; L5 one key per thread "
+     "enumeration; E1 every other wrapper exposes its leaf locks to the enclosing order and duplicate check (only owned-only wrappers "
+     "may present themselves as one lock); O1 no shared access to its members; SD no re-acquisition of a held receiver inside a call; L5 one key per thread "
      "(K1, K2, R5, R3k, R1); Y1/Y2 the retrying collection has one blocking site per pass reached only after the rollback.",
      "absence of deadlock as a behaviour over all schedules and programs; progress of the retry loop (livelock).")
 
 prop("C02",
-     [ts.rule_T1, ts.rule_T2, pos.rule_P1, st2.rule_D1, st.rule_M1, st.rule_E1, ts.rule_M4, A("rule_Q3")],
+     [ts.rule_T1, ts.rule_T2, pos.rule_P1, st2.rule_D1, st.rule_M1, st.rule_E1, ts.rule_M4, A("rule_Q3"), st.rule_M2, st.rule_DELEG, st.rule_E2],
      "T1 every guard()/data_mut()/hold construction/protected-cell access is preceded on its path by a successful acquisition of "
      "the same receiver in the matching mode (path-sensitive typestate over every safe or acquiring function, eager arguments "
      "included); T2 user closures run only while held; P1 position k of every container guard is member k; D1 guard Deref targets "
      "the cell of the lock its Drop releases; E1 the locks acquired are exactly the members' leaves; M4/Q3 no release is ever issued "
-     "for a receiver the call does not hold (a stray release would free another thread's exclusive hold).",
+     "for a receiver the call does not hold (a stray release would free another thread's exclusive hold); M2/E2d/E2 every "
+     "implementation of an HL op acquires/releases in the mode its name promises (the API-level analysis relies on it).",
      "mutual exclusion and per-lock value continuity as observed over interleavings/histories (they follow from the raw lock's "
      "contract plus these rules, by argument not by check).")
 
@@ -129,11 +131,12 @@ prop("C03",
      "the single-thread history enumeration itself (the rules are per-API invariants that make every history safe).")
 
 prop("C04",
-     [st.rule_E1, st.rule_E2, st.rule_DELEG, cg.rule_E3, ts2.rule_E4r, ts2.rule_R4, A("rule_E5"), A("rule_X2")],
+     [st.rule_E1, st.rule_E2, st.rule_DELEG, cg.rule_E3, ts2.rule_E4r, ts2.rule_R4, A("rule_E5"), A("rule_X2"), st.rule_N1N2, st.rule_N4, st.rule_N5],
      "E1 every get_ptrs is leaf/delegate/container(all members)/cached-sorted-list; E2 each collection's six RawLock ops use one "
      "list expression with mode purity and the matching ordered_* helper; wrappers delegate op-for-op; E3 no try-style function "
      "reaches a blocking acquisition (call graph); E4 scoped closure runs exactly once iff acquired and its result is returned; "
-     "E5/X2 ordered_try_*: true only after the loop ran to exhaustion, false only after rolling back the acquired prefix.",
+     "E5/X2 ordered_try_*: true only after the loop ran to exhaustion, false only after rolling back the acquired prefix; "
+     "N1/N4/N5 'each exactly once': no collection can be built or later be made to list a lock twice without a check.",
      "behaviour against concurrent holders (schedules); that the raw try really never waits (lock_api contract).")
 
 prop("C05",
@@ -168,7 +171,7 @@ prop("C15",
      thorough_rules=[W("C15", "nightly")])
 
 prop("C07",
-     [st.rule_N1N2, st.rule_N3, st.rule_N4, st.rule_N5, st.rule_L2, W("C07")],
+     [st.rule_N1N2, st.rule_N3, st.rule_N4, st.rule_N5, st.rule_L2, st.rule_E1, W("C07")],
      "N1/N2 a collection can only be built by an unsafe constructor, under an OwnedLockable bound, or on the no-duplicates edge of "
      "a check over the collection's own complete (for sorting collections: sorted) lock list; N3 the checks compare thin addresses "
      "of all adjacent pairs of the whole slice / insert every element into the address set; N4 OwnedLockable is never implemented "
